@@ -31,6 +31,8 @@ func main() {
 		err = record(os.Args[2:])
 	case "replay":
 		err = replay(os.Args[2:])
+	case "rerun":
+		err = rerun(os.Args[2:])
 	case "selftest":
 		err = selftest()
 	case "child":
@@ -67,6 +69,7 @@ func record(args []string) error {
 	out := fs.String("out", "", "output trace (ndjson)")
 	statsPath := fs.String("stats", "", "stats output (json)")
 	only := fs.String("types", "", "comma-separated type filter (optional)")
+	small := fs.Bool("small", false, "no long lists/texts")
 	fs.Parse(args)
 	d, ok := vh.Drivers[*driver]
 	if !ok {
@@ -86,6 +89,7 @@ func record(args []string) error {
 	defer w.Flush()
 	rec := vh.NewRecorder(w)
 	g := vh.NewGen(*seed)
+	g.Small = *small
 	st := &Stats{Driver: *driver, Seed: *seed, ResCounts: map[string]int{}, OpCounts: map[string]int{}}
 	types := map[string]bool{}
 	ctx := &vh.DriverCtx{G: g, N: *n, TypeFilter: vh.ParseFilter(*only)}
